@@ -22,6 +22,8 @@ var verifHarnesses = map[string]func(){
 	"VerifDestIndep":     VerifDestIndep,
 	"VerifTrapsIndep":    VerifTrapsIndep,
 	"VerifErrDecimal":    VerifErrDecimal,
+	"VerifModes":         VerifModes,
+	"VerifRelations":     VerifRelations,
 	"VerifDivInt":        VerifDivInt,
 	"VerifCmp":           VerifCmp,
 	"VerifQuantize":      VerifQuantize,
